@@ -16,6 +16,8 @@
 #include <vp/probe.hpp>
 #include <vp/report.hpp>
 #include <vp/sched.hpp>
+#include <cerrno>
+#include <vp/interpose.hpp>
 #include <vp/xplore.hpp>
 
 #include <covfie/core/backend/transformer/linear.hpp>
@@ -263,7 +265,9 @@ static void explore_config(Report & R, const std::string & pname, const Program 
         g_log.clear();
         g_oob = 0;
         g_explore_mode = true;
+        vp::g_sched_active_mode = true;
         bool ok = run_schedule(sched, prefix, x);
+        vp::g_sched_active_mode = false;
         g_explore_mode = false;
         return ok;
     };
@@ -296,6 +300,7 @@ static void explore_config(Report & R, const std::string & pname, const Program 
             if (res[i] != expect[i]) why = "thread " + std::to_string(i) + " obtained different values than the sequential execution";
         if (why.empty() && C::storage_digest(field) != expect_storage) why = "final storage differs from the sequential execution";
         if (why.empty() && g_oob) why = "a storage access outside the field's cells";
+        if (why.empty() && x.deadlock) why = "deadlock: every remaining thread waits for a lock / initialisation another waiting thread holds";
         if (why.empty()) {
             for (size_t a = 0; a < g_log.size() && why.empty(); ++a)
                 if (g_log[a].write)
@@ -450,7 +455,7 @@ static void explore_cold(Report & R, const std::string & pname, const Program & 
         std::fflush(stdout);
         pid_t pid = fork();
         if (pid == 0) {
-            alarm(30);
+            alarm(10);
 #ifdef VP_DEBUG_SEGV
             std::signal(SIGSEGV, [](int) { void * bt[40]; int n = backtrace(bt, 40); backtrace_symbols_fd(bt, n, 2); _exit(99); });
 #endif
@@ -468,9 +473,15 @@ static void explore_cold(Report & R, const std::string & pname, const Program & 
             Execution x;
             g_log.clear();
             g_explore_mode = true;
+            vp::g_sched_active_mode = true;
             bool ok = run_schedule(sched, prefix, x);
+            vp::g_sched_active_mode = false;
             g_explore_mode = false;
             sh->ok = ok ? 1 : 0;
+            if (x.deadlock) {
+                sh->violated = 1;
+                std::snprintf(sh->why, sizeof sh->why, "deadlock: every remaining thread waits for a lock / initialisation another waiting thread holds");
+            }
             sh->npoints = static_cast<int>(std::min<size_t>(x.points.size(), 20000));
             sh->preemptions = x.preemptions;
             for (int i = 0; i < sh->npoints; ++i) {
@@ -508,6 +519,15 @@ static void explore_cold(Report & R, const std::string & pname, const Program & 
         }
         int status = 0;
         waitpid(pid, &status, 0);
+        if (WIFSIGNALED(status) && WTERMSIG(status) == SIGALRM) {
+            // a thread blocked in the kernel while holding the turn (a primitive this harness does not interpose): the
+            // schedule cannot be driven any further - inconclusive, counted, never reported as a violation
+            R.counters["coldstart_schedules_inconclusive_blocked"]++;
+            sh->ok = 1;
+            sh->violated = 0;
+            sh->npoints = 0;
+            return true;
+        }
         if (!(WIFEXITED(status) && WEXITSTATUS(status) == 0)) {
             sh->ok = 1;
             sh->violated = 1;
